@@ -44,7 +44,17 @@ func receiptCases(r *rand.Rand, tag string, n int) []receiptCase {
 	var out []receiptCase
 	const key = "59c6995e998f97a5a0044966f0945389dc9e86dae88c7a8412f4603b6b78690d"
 	for i := 0; i < n; i++ {
-		text := fmt.Sprintf(`{"id":"%s-%d","amount":%d}`, tag, i, r.Intn(1000))
+		// texts of the shape clients really submit (hagall-common's ncsclient.Receipt),
+		// with every field at ordinary and at hostile values; the text is opaque to
+		// the relay: whatever it says, a well-formed triple is forwarded unchanged
+		nums := []string{"0", "1", "-1", "4096", "9223372036854775807", "-9223372036854775808", "123456789012"}
+		times := []string{"2024-05-01T10:00:00Z", "0001-01-01T00:00:00Z", "9999-12-31T23:59:59Z", "1970-01-01T00:00:00.000000001+14:00"}
+		strs := []string{"app", "", "ünï-cødé ✓", strings.Repeat("x", 300), `q\"uote`}
+		text := fmt.Sprintf(`{"app_id":"%s","client_id":"%s-%d","session_id":"%sx%x","hagall_wallet_addr":"0x%040x","participant_id":%s,"created_at":"%s","session_joined_at":"%s","bytes_sent":%s,"bytes_received":%s}`,
+			strs[r.Intn(len(strs))], tag, i, strs[r.Intn(2)], r.Intn(1000), r.Int63(), nums[r.Intn(4)], times[r.Intn(len(times))], times[r.Intn(len(times))], nums[r.Intn(len(nums))], nums[r.Intn(len(nums))])
+		if i%5 == 4 {
+			text = fmt.Sprintf(`{"id":"%s-%d","amount":%d}`, tag, i, r.Intn(1000)) // and texts of another shape altogether
+		}
 		hash := xcrypto.Keccak256([]byte(text))
 		sig, err := xcrypto.Sign(key, hash)
 		if err != nil {
